@@ -106,7 +106,7 @@ theorem okVal_getA (d : EqCtx) (a : Inst) (k : String) (h : okInst d a = true) :
   | none =>
     simp only
     split
-    · rfl
+    · split <;> rfl
     · cases hd : lookup k d.defaults with
       | some v => exact h.2 (k, v) (lookup_mem' k _ v hd)
       | none => rfl
@@ -598,19 +598,16 @@ theorem eq_hash_counterexample_default_absent :
         (.delitem "b")).1.attrs = [("a", .int 1)] := by
   refine ⟨by decide, by decide, by decide, by decide, by rfl⟩
 
-/-- finding `eq-vs-readback:explicit-none-reads-default`: on an `_enable_undefined_value` class a
-    defaulted field recorded as explicitly `None` reads the default: every name reads back the same
-    as on the instance where the default was applied, yet the two are `!=` -/
-theorem explicit_none_reads_default_counterexample :
+/-- former finding `eq-vs-readback:explicit-none-reads-default` (fixed by 11aa0bc): on an
+    `_enable_undefined_value` class a defaulted field recorded as explicitly `None` reads `None`,
+    not the default: the instance is told apart from the one where the default was applied by `==`
+    and by the values read back alike -/
+theorem explicit_none_reads_none_example :
     instEq exD { cls := "C", attrs := [("a", .int 1)], nones := ["b"], undef := true }
                { cls := "C", attrs := [("a", .int 1), ("b", .int 0)], undef := true } = false
-    ∧ ∀ k, PyVal.pyEq (getA exD { cls := "C", attrs := [("a", .int 1)], nones := ["b"], undef := true } k)
-                      (getA exD { cls := "C", attrs := [("a", .int 1), ("b", .int 0)], undef := true } k) = true := by
-  refine ⟨by decide, fun k => ?_⟩
-  by_cases ha : k = "a"
-  · subst ha; decide
-  · by_cases hb : k = "b"
-    · subst hb; decide
-    · simp [getA, lookup, ha, hb, exD, undefinedV, PyVal.pyEq]
+    ∧ PyVal.pyEq (getA exD { cls := "C", attrs := [("a", .int 1)], nones := ["b"], undef := true } "b") .none = true
+    ∧ PyVal.pyEq (getA exD { cls := "C", attrs := [("a", .int 1)], nones := ["b"], undef := true } "b")
+                 (getA exD { cls := "C", attrs := [("a", .int 1), ("b", .int 0)], undef := true } "b") = false := by
+  decide
 
 end Typedpy.C11
